@@ -168,6 +168,31 @@ fn run(api: &str, ctx: &[i64], v: i64) -> R {
                 Err(e) => R::vtb(&e, -1),
             }
         }
+        // the slice types carry their own copies of the pseudo header length check
+        "tcp.hslice.calc_checksum_ipv4" | "tcp.slice.calc_checksum_ipv4" => {
+            let p = vec![0x5au8; vu];
+            let mut h = TcpHeader::new(1, 2, 3, 4);
+            h.options = TcpOptions::try_from_slice(&vec![1u8; ctx[0] as usize]).unwrap();
+            let want = h.calc_checksum_ipv4_raw([1; 4], [2; 4], &p);
+            let hb = h.to_bytes();
+            if api == "tcp.hslice.calc_checksum_ipv4" {
+                let s = TcpHeaderSlice::from_slice(&hb).unwrap();
+                let ipb = Ipv4Header::new(0, 4, IpNumber(6), [1; 4], [2; 4]).unwrap().to_bytes();
+                let ips = Ipv4HeaderSlice::from_slice(&ipb).unwrap();
+                match (s.calc_checksum_ipv4_raw([1; 4], [2; 4], &p), s.calc_checksum_ipv4(&ips, &p)) {
+                    (Ok(x), Ok(y)) => R::ok(if x == y && Ok(x) == want { -1 } else { -8 }),
+                    (Err(e), Err(f)) if e == f => R::vtb(&e, -1),
+                    _ => R::err("DoorsDiffer", 0, -1),
+                }
+            } else {
+                let mut all = hb.to_vec();
+                all.extend_from_slice(&p);
+                match TcpSlice::from_slice(&all).unwrap().calc_checksum_ipv4([1; 4], [2; 4]) {
+                    Ok(x) => R::ok(if Ok(x) == want { -1 } else { -8 }),
+                    Err(e) => R::vtb(&e, -1),
+                }
+            }
+        }
         "macsec.set_payload_len" => {
             let mut h = MacsecHeader { ptype: if ctx[0] == 1 { MacsecPType::Unmodified(EtherType(0x0800)) } else { MacsecPType::Modified }, endstation_id: true, scb: false,
                                        an: MacsecAn::try_from(3).unwrap(), short_len: MacsecShortLen::try_from(9).unwrap(), packet_nr: 5, sci: None };
